@@ -87,13 +87,15 @@ def addr_ordered(tstr):
     return None
 
 
+PROG_FNS = {}
 READ_ONLY_ALGOS = ('std::find', 'std::find_if', 'std::find_if_not', 'std::any_of', 'std::all_of', 'std::none_of', 'std::count', 'std::count_if', 'std::for_each',
                    'std::distance', 'std::accumulate', 'std::equal', 'std::min_element', 'std::max_element', 'std::is_sorted', 'std::binary_search', 'std::lower_bound')
 
 
 def refine_iterator_use(u, c):
-    """a queue handed to begin()/end() (free or member) is classified by the algorithm that consumes the iterator: read-only scans keep the class,
-    anything else (sort, reverse, rotate, remove, unique, shuffle...) can reorder the queue"""
+    """a queue handed to begin()/end() (free or member) is classified by the algorithm that consumes the iterator: read-only scans and reorderings that
+    are a function of the current order or of values (reverse, sort by pid...) keep the class; a sort that looks at addresses (default comparator on
+    pointers, or a comparator comparing its pointer parameters) and a shuffle make the order differ from run to run"""
     callee = getattr(u, 'callee', None) or ''
     m = callee.split('<')[0].rsplit('::', 1)[-1]
     if not ((u.kind == 'arg' and m in ('begin', 'end', 'rbegin', 'rend')) or (u.kind == 'call' and u.method in ('begin', 'end', 'rbegin', 'rend'))):
@@ -106,11 +108,30 @@ def refine_iterator_use(u, c):
             if n.get('k') in ('Call', 'New0') and n is not target:
                 for a in n.get('a') or ():
                     if a is target or (isinstance(a, dict) and a.get('k') == 'R' and a.get('r') == u.eid and fn['elems'][u.eid]['x'] is target):
-                        consumers.append((n.get('c') or {}).get('q', '?'))
+                        consumers.append(((n.get('c') or {}).get('q', '?'), n))
     if not consumers:
         return c
-    bad = [q for q in consumers if q.split('<')[0] not in READ_ONLY_ALGOS and not q.split('<')[0].endswith(('operator==', 'operator!=', 'operator-'))]
-    return ('reordered by ' + bad[0].split('<')[0]) if bad else c
+    bad = [(q, n) for q, n in consumers if q.split('<')[0] not in READ_ONLY_ALGOS and not q.split('<')[0].endswith(('operator==', 'operator!=', 'operator-'))]
+    for q, n in bad:
+        name = q.split('<')[0]
+        if name in ('std::shuffle', 'std::random_shuffle'):
+            return 'reordered by ' + name
+        if name in ('std::sort', 'std::stable_sort', 'std::partial_sort', 'std::nth_element', 'std::make_heap', 'std::sort_heap'):
+            # a reordering is reproducible iff its comparator does not look at addresses: a lambda comparing values obtained from the elements
+            lam = [a for a in n.get('a') or () for x in ex.walk(a) if x.get('k') == 'Lambda' for a in [x]]
+            if not lam or lam[0].get('fn') not in PROG_FNS:
+                return 'reordered by %s with the default comparator (addresses)' % name
+            lf = PROG_FNS[lam[0]['fn']]
+            pnames = set(p_['n'] for p_ in lf['params'])
+            for el in lf['elems']:
+                for x in ex.walk(el['x']):
+                    if x.get('k') == 'Bin' and x.get('op') in ('<', '>', '<=', '>='):
+                        ops = x.get('a') or ()
+                        if all(o.get('k') == 'Ref' and (o.get('d') or {}).get('n') in pnames and cg.pointer_like(lf.tstr(o.get('t', -1))) for o in ops):
+                            return 'reordered by %s comparing addresses' % name
+            continue        # value comparator: the same order in every run
+        # reverse, rotate, partition, remove_if...: a function of the current order only
+    return c
 
 
 def in_scope(fn, scope):
@@ -368,6 +389,8 @@ def run(ctx):
     ctx.require(nheaps >= 2, 'R2', 'kernel heaps not found (%d)' % nheaps)
 
     # ---- R3 run queue discipline --------------------------------------------------------------------------------------------------------
+    PROG_FNS.clear()
+    PROG_FNS.update(P.fns)
     ctx.rule('R3', 'actors_to_run_ is only appended/swapped/cleared; simcalls are handled by one forward loop over actors_that_ran_; actor_list_ is keyed by pid', 12)
     EI = K + 'EngineImpl'
     flds = {n: (t, q) for n, t, q in lib.fields(P, EI)}
